@@ -157,7 +157,8 @@ def main(argv=None):
     ti = 0 if a.tier == "quick" else 1
     only = set(a.only.split(",")) if a.only else None
     opens, fixed = parse_known(prop)
-    replay_dir = os.path.join(ROOT, "replays", prop)
+    alt = os.path.realpath(core.REPO) != "/repo"  # sensitivity run against a scratch tree: keep outputs apart
+    replay_dir = os.path.join(ROOT, ".cache", "replays-alt", prop) if alt else os.path.join(ROOT, "replays", prop)
     tmpdir = tempfile.mkdtemp(prefix=f"vf-{prop}-", dir=os.path.join(ROOT, ".cache") if os.path.isdir(os.path.join(ROOT, ".cache")) else None)
 
     status = 0
@@ -288,6 +289,9 @@ def main(argv=None):
             "max_observed_error": max(r["max_err"] for r in rs), "wall_s": max(r["wall_s"] for r in rs),
             "exhaustive": bool(sub.exhaustive), "rule": sub.rule,
         }
+        if rs[0]["mode"] == "machine":
+            subs_ev[sub.name]["steps"] = sum(r.get("steps", 0) for r in rs)
+            subs_ev[sub.name]["step_rejects"] = sum(r.get("step_rejects", 0) for r in rs)
         tot_eval += max(cells, ex_)
         all_nt.update(nth)
         tot_nt_cells += max(len(nth), ntc)
@@ -318,8 +322,9 @@ def main(argv=None):
         "wall_s": round(wall, 2), "violations": len(violations),
     }
     if not only:
-        os.makedirs(os.path.join(ROOT, "evidence"), exist_ok=True)
-        with open(os.path.join(ROOT, "evidence", f"{prop}.json"), "w") as f:
+        evdir = os.path.join(ROOT, ".cache", "evidence-alt") if alt else os.path.join(ROOT, "evidence")
+        os.makedirs(evdir, exist_ok=True)
+        with open(os.path.join(evdir, f"{prop}.json"), "w") as f:
             json.dump(ev, f, indent=1, sort_keys=True)
     shutil.rmtree(tmpdir, ignore_errors=True)
 
